@@ -203,6 +203,49 @@ def run(ctx):
         late.append(fc.gen_late_error_scenario(None, canonical=True))      # corpus: minimised history
         for i in range(ctx.budget(20, 350)):
             late.append(fc.gen_late_error_scenario(ctx.rng))
+    # ---- Segmentation (one read) scripts: the real class with a fake node
+    scases, simpl, slines = [], [], []
+    if ctx.replay:
+        c = ctx.replay.get("case") or ((ctx.replay.get("correspondence_disagreements") or [{}])[0].get("case")) or {}
+        if c.get("kind") == "seg":
+            digs, res = fc.replay_seg_script(tuple(c["params"]), c["toks"])
+            scases.append(c)
+            simpl.append(";".join(digs))
+            slines.append("seg %d %d %d %d %s" % (tuple(c["params"]) + (" ".join(c["toks"]),)))
+    else:
+        SEG_CORPUS = [((2000, 1000, 2500, 50), ["S:0", "f:B:1", "g:2000:1000:0:1"]),       # the seeded retry history
+                      ((64, 1000, 70, 10), ["S:0", "g:0:64:0:1", "g:64:64:0:1"]),           # WrongSegmentError retry
+                      ((2000, 1000, 2500, 50), ["S:0", "f:B:1", "f:B:1"]),                 # second failure: errback
+                      ((16, 16, 3, 40), ["S:1", "g:0:16:1:1", "r", "t:1", "g:16:16:0:1", "x"])]
+        for (params, toks) in SEG_CORPUS:
+            digs, res = fc.replay_seg_script(params, toks)
+            scases.append({"kind": "seg", "params": list(params), "toks": toks})
+            simpl.append(";".join(digs))
+            slines.append("seg %d %d %d %d %s" % (params + (" ".join(toks),)))
+            ctx.case(("S", params, tuple(toks)))
+        for i in range(ctx.budget(600, 20000)):
+            params, toks, digs, info = fc.gen_seg_script(ctx.rng)
+            case = {"kind": "seg", "params": list(params), "toks": toks}
+            scases.append(case)
+            simpl.append(";".join(digs))
+            slines.append("seg %d %d %d %d %s" % (params + (" ".join(toks),)))
+            ctx.case(("S", params, tuple(toks)) if len(toks) > 2 else None)
+            ctx.count("seg-result:" + str(info["result"]))
+            if any(t.startswith("f:B") for t in toks):
+                ctx.count("seg-bad-segnum-answer")
+            # the statement on one read: it never sits idle without having completed or failed
+            if info["result"] is None and not info["outstanding"] and info["queued"] == 0 and info["hungry"] and len(toks) < 60:
+                ctx.violation("a read has no segment request outstanding, nothing queued, is not paused, and its Deferred "
+                              "never fired", case,
+                              "stuck-after-bad-segment-number-retry" if any(t.startswith("f:B") for t in toks)
+                              else "read-idle-without-result")
+            if info["result"] == "done" and info["written"] != info["size"]:
+                ctx.violation("a read completed successfully having written %d of %d bytes" % (info["written"], info["size"]),
+                              case, "read-done-wrong-length")
+    smodel = ctx.model(slines) if slines else None
+    if smodel is not None:
+        ctx.compare("Segmentation script: calls (get_segment / write / cancel / callback / errback), _offset, _size, _alive, "
+                    "_hungry, _active_segnum, queued turns, result after every event", scases, simpl, smodel)
     model = ctx.model(lines) if lines else None
     if model is not None:
         ctx.compare("DownloadNode script: calls, _segment_requests, _active_segment, retired requests and the active "
